@@ -477,7 +477,7 @@ class Assembler:
             # body replaced, contract assumed, text hash pinned
             body_a, body_b = s.t[fp.k_body_open][1], s.t[fp.k_body_close][2]
             self.assumed.append({'function': fnname, 'sha256': hashlib.sha256(item.text().encode()).hexdigest(),
-                                 'proved_in': spec.get('contract_from')})
+                                 'proved_in': spec.get('contract_from') or spec.get('proved_in')})
             self.in_assumed = True
             self.fn_contract(s, fp, ed, spec, fnname, False)
             self.in_assumed = False
